@@ -132,6 +132,22 @@ func Check(c Case) ([]evid.Violation, []reqResult) {
 		vs = append(vs, evid.V("unsound-dispatch", sig, "%s %q ?%s dispatched to %s with {%v}; no rule of that method explains it (its rules: %v)",
 			r.Verb, r.Path, r.query(), o.Method, o.Msg, mine))
 	}
+	// the bindings of the sibling methods (every odd service declares a streaming method Feed before its unary
+	// one): they are covered by Feed's rules and by no rule of Mth
+	for i := range c.Rules {
+		if i%2 == 1 && b.Accepted[i] {
+			for try := 0; try < 3; try++ {
+				path, feed := route.FeedPath(i)+"/abc", fmt.Sprintf("/%s.Svc%d/Feed", route.Pkg, i)
+				if try == 2 {
+					path = feed // its implicit binding
+				}
+				if o := b.Do("POST", path, ""); o.Method != "" && o.Method != feed && !explain(owned, b, Req{Verb: "POST"}, path, o) {
+					vs = append(vs, evid.V("unsound-dispatch", "sibling-method-rule", "POST %q (a binding of the streaming method Feed) dispatched to %s; no rule of that method covers it", path, o.Method))
+					break
+				}
+			}
+		}
+	}
 	return vs, out
 }
 
